@@ -653,6 +653,14 @@ example : (iterTable stdConv ⟨.blankAll, false, 0,
            (.plain (.int 7), .ok Gen.C18.skippedOrigin)]] := by
   decide +kernel
 
+/-- the first attribute need not come from a column: external, ranged and missing optional first
+attributes (the rule sets of the repaired anchor-cell defect) yield one object per data row -/
+example : (iterTable stdConv ⟨.blankAll, false, 0,
+      [.ext (.str "file".toList), .range .set 1 true, .col "gone".toList 1 (some .none),
+       .col "id".toList 1 none]⟩ rangeSheet).objs.map (fun o => o.map fun o => o.attrs.map fun a => a.1) =
+    [some [.plain (.str "file".toList), .set ["math".toList], .plain .none, .plain (.int 0)]] := by
+  decide +kernel
+
 /-- a missing column without default is rejected with `ValueError` (hypothesis of `bind_error`) -/
 example : bindTitles ["id".toList] [Rule.col "id".toList 1 (none : Option StdV), .col "x".toList 1 none]
     = .error .valueError := by decide +kernel
